@@ -27,22 +27,19 @@ THEOREMS = [
     "Epytext.literal_block_exact", "Epytext.stripBlankEnds_joinNL", "Epytext.removed_prefix_is_space",
     "Epytext.doctest_block_exact",
     "Doctest.splice_conserves", "Doctest.subfunc_conserves", "Doctest.doctest_body_text",
-    "Doctest.doctest_body_conserves_partial", "Doctest.doctest_body_conserves_counterexample",
+    "Doctest.doctest_body_conserves", "Doctest.doctest_body_conserves_exact", "Doctest.doctest_body_old_counterexample",
     "Epytext.plaintext_exact",
     "Docstring.kept_iff_in_scope", "Docstring.every_tag_rendered_or_reported_partial",
+    "Docstring.every_tag_but_type_rendered_or_reported",
     "Docstring.every_tag_rendered_or_reported_counterexample", "Docstring.handlers_modelled",
 ]
 PARTIAL = {
-    "Doctest.doctest_body_conserves_partial":
-        "hypothesis: every expected-output group is empty or ends with exactly one newline and has no other trailing "
-        "white space (`want.rstrip()` drops it) — counterexample proved, finding doctest:want-trailing-whitespace-dropped",
     "Docstring.every_tag_rendered_or_reported_partial":
-        "hypothesis `inScope`: (1) a field whose handler is `handled_elsewhere` (ivar, cvar, var) stands in a module or class "
-        "docstring — in a function or attribute docstring it is dropped without output or report (finding "
-        "field:var-in-function-silently-dropped); (2) a `type` field with a name in a module/class docstring names a variable "
-        "that is assigned or documented by ivar/cvar/var — otherwise the type goes to an Attribute without kind that is never "
-        "displayed (finding field:type-of-constructor-parameter-in-class-docstring-hidden). `kept_iff_in_scope` proves these "
-        "are exactly the lost cases over the live handler table; counterexamples proved.",
+        "hypothesis `inScope`: a `type` field with a name in a module/class docstring names a variable that is assigned or "
+        "documented by ivar/cvar/var — otherwise the type goes to an Attribute without kind that is never displayed (open "
+        "finding field:type-of-constructor-parameter-in-class-docstring-hidden). `kept_iff_in_scope` proves this is exactly "
+        "the lost case over the live handler table; every other tag is kept unconditionally "
+        "(`every_tag_but_type_rendered_or_reported`); counterexample proved.",
 }
 RULE = ("documents from a structure-aware generator (paragraphs of words with punctuation and markup-looking characters "
         "that are legal in the format, nested bullet/ordered lists, inline markup incl. nested, links with and without "
@@ -58,7 +55,8 @@ ASSUMPTIONS = [
     "regex character classes `\\s` / `\\w` beyond ASCII are parameters of the model (`pyIsSpace` table checked against "
     "Python's for every code point < 0x3100; `\\w` supplied per request from Python's `re`)",
     "`DOCTEST_RE` / `DOCTEST_EXAMPLE_RE` match spans are parameters (non-overlapping, increasing — checked on every match "
-    "list the real regexes produce); `DEFINE_FUNC_RE` groups concatenate to the matched text (checked)",
+    "list the real regexes produce); `DEFINE_FUNC_RE` groups concatenate to the matched text (checked); an expected-output "
+    "group lacks its final newline only when it is the last one and ends the string (`Doctest.Terminated`, checked)",
     "reStructuredText, google and numpy bodies pass through docutils / napoleon: only the direct oracle speaks for them",
     "paragraph contents contain no newline (Token.contents of a paragraph is `' '.join(stripped lines)`)",
     "docutils strips trailing white space from every input line; generated reST/google/numpy blocks carry none",
@@ -514,7 +512,17 @@ def stream_splice(ctx: Ctx) -> None:
         # doctest bodies
         s = gen_doctest_text(ctx.rng)
         toks, exs = example_list(s)
+        for n_ex, (a0, a1, a2, want) in enumerate(exs):
+            if want and not want.endswith("\n") and not (n_ex == len(exs) - 1 and a2 == len(s)):
+                ctx.fail("contract:DOCTEST_EXAMPLE_RE-want-unterminated", {"doctest": s}, "an expected-output group without final newline is not at the end of the string")
         out = impl_doctestbody(s)
+        if out != "AssertionError":
+            txt = "".join(dec(p.split(":", 1)[1]) for p in out.split() if p != "-")
+            if txt not in (s, s + "\n"):
+                ws_only = [l.rstrip() for l in txt.split("\n")] == [l.rstrip() for l in (s + "\n").split("\n")] or \
+                          [l.rstrip() for l in txt.rstrip("\n").split("\n")] == [l.rstrip() for l in s.rstrip("\n").split("\n")]
+                ctx.fail("doctest:want-trailing-whitespace-dropped" if ws_only else "doctestbody:text-changed", {"doctest": s, "shown": txt},
+                         "colorize_doctest_body pieces do not concatenate to the input (up to one final newline)")
         reqs.append(("epytext doctestbody %s %s" % (enc(s), toks)).rstrip())
         impls.append(out)
         pay.append({"doctest": s})
@@ -1263,7 +1271,7 @@ def oracle_document(ctx: Ctx, fmt: str, doc, ser, full: str, src: str, r) -> Non
         for (kind, want), g in zip(out.blocks, got):
             if g != want:
                 same_but_ws = [l.rstrip() for l in g.split("\n")] == [l.rstrip() for l in want.split("\n")]
-                if kind == "doctest" and same_but_ws and "doctest-want-trailing-ws:last" in out.flags:
+                if kind == "doctest" and same_but_ws and any(fl.startswith("doctest-want-trailing-ws") for fl in out.flags):
                     sig = "doctest:want-trailing-whitespace-dropped"
                 elif same_but_ws:
                     sig = f"block:{kind}:trailing-whitespace:{fmt}"
